@@ -119,7 +119,7 @@ func (c *Conversation) processDataMessageWithRawErrors(header, msg []byte) (plai
 		return
 	}
 
-	sessionKeys, err := c.keys.calculateDHSessionKeys(dataMessage.recipientKeyID, dataMessage.senderKeyID, c.version)
+	sessionKeys, err := c.keys.calculateDHSessionKeysWithoutHistory(dataMessage.recipientKeyID, dataMessage.senderKeyID, c.version)
 	if err != nil {
 		return
 	}
@@ -133,6 +133,9 @@ func (c *Conversation) processDataMessageWithRawErrors(header, msg []byte) (plai
 	if err = c.keys.checkMessageCounter(dataMessage); err != nil {
 		return
 	}
+
+	// Only now has the MAC key been used: it will have to be revealed later
+	c.keys.macKeyHistory.addKeys(dataMessage.recipientKeyID, dataMessage.senderKeyID, sessionKeys.receivingMACKey)
 
 	p := plainDataMsg{}
 	//this can't return an error since receivingAESKey is a AES-128 key
